@@ -69,6 +69,10 @@ type WeatherSpec struct {
 }
 
 type RotEntry struct {
+	// automatic management (zero dates when the entry uses fixed dates)
+	WinOpen    Date // sowing window of the automatic-management table in the sowing year
+	WinClose   Date
+	LatestHarv Date // latest harvest date of the table in the harvest year
 	Crop    string
 	Variety string
 	Sow     Date
@@ -172,6 +176,7 @@ type Scenario struct {
 	AutoIrr      bool
 	AutoHarvest  bool
 	Automan      []string // lines of automan.txt (without header)
+	AutoRows     map[string]*AutoRow
 	CropParamYml bool
 	VirtualDate  string
 
@@ -394,6 +399,7 @@ func profileFor(prop string) Profile {
 		p.SameDayEv = 0.5
 		p.Inject = 0
 		p.Measurement = 0
+		p.AutoProb = 0.2
 	case "C16":
 		p.AutoProb = 0.8
 		p.Inject = 0
@@ -1015,7 +1021,7 @@ func genEvents(sc *Scenario, r *Rng, p Profile) {
 	if r.Bool(p.PreStartEv) {
 		fz = append(fz, s0-r.Range(1, 300))
 	}
-	fz = sortDedup(fz, 2)
+	fz = dropAfterPair(sortDedup(fz, 2))
 	for _, z := range fz {
 		row := fertTable[r.Intn(len(fertTable))]
 		sc.Fert = append(sc.Fert, FertEvent{DateOfZeit(z), r.Range(1, 250), row.Name})
@@ -1034,7 +1040,7 @@ func genEvents(sc *Scenario, r *Rng, p Profile) {
 	if r.Bool(p.PreStartEv) {
 		tz = append(tz, s0-r.Range(1, 300))
 	}
-	tz = sortDedup(tz, 2)
+	tz = dropAfterPair(sortDedup(tz, 2))
 	// a same-day pair is shifted by one day: keep the shifted day inside the fallow window (windows have margin 2)
 	for _, z := range tz {
 		maxDepth := 40
@@ -1065,6 +1071,20 @@ func genEvents(sc *Scenario, r *Rng, p Profile) {
 			sc.Irr = append(sc.Irr, IrrEvent{DateOfZeit(z), r.Range(1, 60), pickI(r, []int{0, 0, 5, 20, 50})})
 		}
 	}
+}
+
+// dropAfterPair removes an event scheduled for the day right after a same-day pair (the second of the pair already
+// moves to that day; what should happen to a third action then is not covered by the property)
+func dropAfterPair(xs []int) []int {
+	var out []int
+	for _, x := range xs {
+		n := len(out)
+		if n >= 2 && out[n-1] == out[n-2] && x == out[n-1]+1 {
+			continue
+		}
+		out = append(out, x)
+	}
+	return out
 }
 
 // sortDedup sorts ascending and keeps at most maxSame equal values
@@ -1128,5 +1148,239 @@ func genOutputConfigs(sc *Scenario, r *Rng, p Profile) {
 	}
 }
 
-// genAuto: automatic management (filled in by the C16 work)
-func genAuto(sc *Scenario, r *Rng) {}
+// AutoRow is one line of the automatic-management table (one per crop code).
+type AutoRow struct {
+	Crop                  string
+	Sow1, Sow2, Har2      int // day of year in a normal year (rendered as day+month in the configured date format)
+	FixedSowing           bool
+	TS                    float64
+	TSIsMax               bool
+	SMoMin, SMoMax        float64
+	HMoMin, HMoMax        float64
+	RainAv, RainAct       float64
+	TAccu, TBase          int
+	IrrSt1, IrrSt2        int
+	Ndem1, Ndem2, Ndem3   int
+	St1, St2, St3         string // 3 characters each
+	TWindow               int
+	OrgF                  string
+	OrgAmount             int
+	OrgTime               string // H or S + 2 digits
+	IrrLow, IrrDep, IrrMax int
+}
+
+func doyToDate(year, doy int) Date {
+	if doy > yearLen(year) {
+		doy = yearLen(year)
+	}
+	if doy < 1 {
+		doy = 1
+	}
+	return Date{year, 1, 1}.AddDays(doy - 1)
+}
+
+// the table carries day+month; the same text is used in every year
+func ddmmOf(doy int) (int, int) {
+	d := Date{2001, 1, 1}.AddDays(doy - 1)
+	return d.D, d.M
+}
+
+func dateFromDDMM(year, doyRef int) Date {
+	d, m := ddmmOf(doyRef)
+	return Date{year, m, d}
+}
+
+// genAuto switches automatic management on and regenerates rotation and tillage so that every sowing window
+// opens after the latest harvest date of the preceding crop (the quantifier of C16).
+func genAuto(sc *Scenario, r *Rng) {
+	sc.AutoSow = r.Bool(0.7)
+	sc.AutoHarvest = r.Bool(0.6)
+	sc.AutoIrr = r.Bool(0.5)
+	sc.AutoFert = r.Bool(0.5)
+	sc.AutoRows = map[string]*AutoRow{}
+	row := func(ci *CropInfo) *AutoRow {
+		if a, ok := sc.AutoRows[ci.Code]; ok {
+			return a
+		}
+		a := &AutoRow{Crop: ci.Code}
+		a.Sow1 = ci.SowLo - r.Range(0, 8)
+		a.Sow2 = mini(ci.SowHi+r.Range(0, 10), 364)
+		if r.Bool(0.15) {
+			a.Sow2 = a.Sow1 + r.Range(0, 3) // very short window: forced sowing
+		}
+		a.Har2 = mini(ci.HarvHi+r.Range(0, 15), 364)
+		a.FixedSowing = r.Bool(0.1)
+		a.TS = float64(r.Range(20, 120)) / 10
+		a.TSIsMax = ci.Winter
+		if ci.Winter {
+			a.TS = float64(r.Range(120, 250)) / 10
+		}
+		a.SMoMin, a.SMoMax = 0, float64(r.Range(60, 999))/10
+		a.HMoMin, a.HMoMax = 0, float64(r.Range(60, 999))/10
+		a.RainAv = float64(r.Range(5, 80)) / 10
+		a.RainAct = float64(r.Range(1, 10)) / 10
+		a.TAccu = pickI(r, []int{0, 0, 80, 200, 340})
+		if ci.Winter {
+			a.TAccu = 0
+		}
+		a.TBase = pickI(r, []int{0, 0, 5})
+		a.IrrSt1 = r.Range(1, 4)
+		a.IrrSt2 = r.Range(a.IrrSt1, 6)
+		a.Ndem1, a.Ndem2, a.Ndem3 = r.Range(0, 180), r.Range(0, 150), r.Range(0, 90)
+		st := func() string {
+			switch r.Intn(3) {
+			case 0:
+				return "S" + strconv.Itoa(r.Range(0, 5)) + " "
+			case 1:
+				return fmt.Sprintf("%-3d", r.Range(40, 200))
+			default:
+				return "0  "
+			}
+		}
+		a.St1, a.St2, a.St3 = st(), st(), st()
+		a.TWindow = r.Range(1, 14)
+		a.OrgF, a.OrgAmount, a.OrgTime = "---", 0, "00 "
+		if r.Bool(0.4) {
+			a.OrgF, a.OrgAmount = pickS(r, []string{"RM ", "SM ", "FM "}), r.Range(20, 300)
+			a.OrgTime = pickS(r, []string{"H", "S"}) + fmt.Sprintf("%-2d", r.Range(1, 9))
+		}
+		a.IrrLow, a.IrrDep, a.IrrMax = r.Range(20, 80), r.Range(20, 120), r.Range(5, 60)
+		sc.AutoRows[ci.Code] = a
+		return a
+	}
+	// rotation
+	pre := sc.Rotation[0]
+	sc.Rotation = []RotEntry{pre}
+	prevLatest := sc.Start
+	for len(sc.Rotation) < 12 {
+		ci := &cropTable[r.Intn(len(cropTable))]
+		a := row(ci)
+		// smallest sowing year whose window opens after the latest harvest of the preceding crop
+		y := prevLatest.Y
+		for dateFromDDMM(y, a.Sow1).Zeit() <= prevLatest.Zeit()+6 {
+			y++
+		}
+		open, closeD := dateFromDDMM(y, a.Sow1), dateFromDDMM(y, a.Sow2)
+		hy := y
+		if ci.Winter {
+			hy = y + 1
+		}
+		latest := dateFromDDMM(hy, a.Har2)
+		sow := open.AddDays(r.Range(0, maxi(0, closeD.Zeit()-open.Zeit())))
+		// the rotation file's harvest date: between window close + 40 days and the latest harvest date
+		hlo := dateFromDDMM(hy, ci.HarvLo)
+		if hlo.Zeit() < closeD.Zeit()+40 {
+			hlo = closeD.AddDays(40)
+		}
+		harv := hlo
+		if latest.Zeit() > hlo.Zeit() {
+			harv = hlo.AddDays(r.Range(0, latest.Zeit()-hlo.Zeit()))
+		} else {
+			latest = hlo
+			dd, mm := latest.D, latest.M
+			_ = dd
+			_ = mm
+		}
+		e := RotEntry{Crop: ci.Code, Sow: sow, Harvest: harv, Rex: pickI(r, []int{0, 100, 80, 50}), WinOpen: open, WinClose: closeD, LatestHarv: latest}
+		if a.OrgAmount > 0 && r.Bool(0.5) {
+			e.AutOrg = 1
+		}
+		if len(ci.Varieties) > 0 && r.Bool(0.3) {
+			e.Variety = pickS(r, ci.Varieties)
+		}
+		sc.Rotation = append(sc.Rotation, e)
+		prevLatest = latest
+		if harv.Zeit() > prevLatest.Zeit() {
+			prevLatest = harv
+		}
+		if open.Zeit() > sc.End.Zeit() {
+			break
+		}
+	}
+	// tillage only where no crop can stand: between the latest harvest and the next window opening
+	sc.Till = nil
+	nt := r.Range(0, 4)
+	for i := 0; i < nt; i++ {
+		k := r.Range(0, len(sc.Rotation)-2)
+		a := sc.Rotation[k].LatestHarv.Zeit()
+		if k == 0 {
+			a = sc.Start.Zeit()
+		}
+		if h := sc.Rotation[k].Harvest.Zeit(); h > a {
+			a = h
+		}
+		b := sc.Rotation[k+1].WinOpen.Zeit()
+		if b-a < 8 {
+			continue
+		}
+		z := r.Range(a+3, b-4)
+		if z > sc.End.Zeit() {
+			continue
+		}
+		sc.Till = append(sc.Till, TillEvent{DateOfZeit(z), r.Range(5, mini(40, maxi(5, 10*sc.Soil.N()))), r.Range(1, 2)})
+	}
+	for i := 1; i < len(sc.Till); i++ {
+		for j := i; j > 0 && sc.Till[j].D.Zeit() < sc.Till[j-1].D.Zeit(); j-- {
+			sc.Till[j], sc.Till[j-1] = sc.Till[j-1], sc.Till[j]
+		}
+	}
+	var tl []TillEvent
+	for i, t := range sc.Till {
+		if i > 0 && t.D.Zeit() <= sc.Till[i-1].D.Zeit()+2 {
+			continue
+		}
+		tl = append(tl, t)
+	}
+	sc.Till = tl
+	// the table as text
+	sc.Automan = nil
+	for _, ct := range cropTable {
+		if a, ok := sc.AutoRows[ct.Code]; ok {
+			sc.Automan = append(sc.Automan, a.line(sc.DateFormat))
+		}
+	}
+}
+
+func (a *AutoRow) line(dateFormat int) string {
+	buf := []byte(strings.Repeat(" ", 184))
+	dm := func(doy int) string {
+		d, m := ddmmOf(doy)
+		return FmtDayMonth(d, m, dateFormat)
+	}
+	put(buf, 0, fmt.Sprintf("%-3s", a.Crop))
+	if a.FixedSowing {
+		put(buf, 4, "0000")
+	} else {
+		put(buf, 4, dm(a.Sow1))
+	}
+	put(buf, 9, dm(a.Sow2))
+	put(buf, 14, dm(a.Har2))
+	put(buf, 19, fmt.Sprintf("%4.1f", a.TS))
+	if a.TSIsMax {
+		put(buf, 24, "x")
+	}
+	put(buf, 25, fmt.Sprintf("%5.1f", a.SMoMin))
+	put(buf, 32, fmt.Sprintf("%5.1f", a.SMoMax))
+	put(buf, 39, fmt.Sprintf("%5.1f", a.HMoMin))
+	put(buf, 46, fmt.Sprintf("%5.1f", a.HMoMax))
+	put(buf, 53, fmt.Sprintf("%4.1f", a.RainAv))
+	put(buf, 60, fmt.Sprintf("%4.1f", a.RainAct))
+	put(buf, 68, fmt.Sprintf("%-3d", a.TAccu))
+	put(buf, 74, fmt.Sprintf("%-2d", a.TBase))
+	put(buf, 80, strconv.Itoa(a.IrrSt1))
+	put(buf, 87, strconv.Itoa(a.IrrSt2))
+	put(buf, 94, fmt.Sprintf("%-3d", a.Ndem1))
+	put(buf, 100, fmt.Sprintf("%-3d", a.Ndem2))
+	put(buf, 106, fmt.Sprintf("%-3d", a.Ndem3))
+	put(buf, 112, a.St1)
+	put(buf, 119, a.St2)
+	put(buf, 127, a.St3)
+	put(buf, 135, fmt.Sprintf("%-2d", a.TWindow))
+	put(buf, 143, fmt.Sprintf("%-3s", a.OrgF))
+	put(buf, 149, fmt.Sprintf("%-3d", a.OrgAmount))
+	put(buf, 156, fmt.Sprintf("%-3s", a.OrgTime))
+	put(buf, 163, fmt.Sprintf("%-3d", a.IrrLow))
+	put(buf, 170, fmt.Sprintf("%-3d", a.IrrDep))
+	put(buf, 177, fmt.Sprintf("%-3d", a.IrrMax))
+	return string(buf)
+}
